@@ -294,6 +294,20 @@ fn check_real(case: &MixCase, seed: u64, rep: &mut Report, rs: &mut RealStats) {
         let proof = prove(&plain, 1).map_err(|e| ("rejects-honest".to_string(), format!("the real prover fails on the honest case: {e:?}")))?;
         // exact vector
         if let Err(e) = verify(&plain, com, &proof) {
+            // is it the count? (the padded / truncated vector describes the same instance polynomial
+            // when the dropped / added element is zero)
+            let mut alt: Vec<(&str, Vec<F>)> = vec![("one longer", [plain.clone(), vec![F::ZERO]].concat())];
+            if plain.last() == Some(&F::ZERO) {
+                alt.push(("one shorter", plain[..plain.len() - 1].to_vec()));
+            }
+            for (what, inst) in alt {
+                if verify(&inst, com, &proof).is_ok() {
+                    return Err((
+                        "count-mismatch".into(),
+                        format!("verify rejects the exact off-circuit encoding ({} raw public inputs: {e:?}) but accepts a vector {what}: the number recorded at key generation is not the number of exposed raw public inputs", plain.len()),
+                    ));
+                }
+            }
             return Err((
                 "rejects-honest".into(),
                 format!("verify rejects the honest proof with the off-circuit encoding ({} raw public inputs, {} committed): {e:?}", plain.len(), committed.len()),
@@ -331,7 +345,8 @@ fn check_real(case: &MixCase, seed: u64, rep: &mut Report, rs: &mut RealStats) {
             }
         }
         if !committed.is_empty() {
-            if verify(&plain, None, &proof).is_ok() {
+            // (an all-zero committed vector commits to the identity, which is what `None` stands for)
+            if committed.iter().any(|c| *c != F::ZERO) && verify(&plain, None, &proof).is_ok() {
                 return Err(("edited-output-accepted".into(), "verify accepts the proof without the commitment to the committed instances".into()));
             }
             for i in driver::pick_positions(0, committed.len(), 3) {
@@ -645,11 +660,14 @@ fn run_vk(seed: u64, part: &mut Report, st: &mut ExpStats) {
 
 // ---- off-circuit injectivity ------------------------------------------------------------------
 
-fn injectivity(kinds: &[Kind], n_random: usize, ctx: &Ctx, rep: &mut Report) -> Json {
+fn injectivity(kinds: &[Kind], n_random: usize, ctx: &Ctx, rep: &mut Report, explicit: Option<&[Val]>) -> Json {
     let mut table = serde_json::Map::new();
     for &kind in kinds {
         let mut rng = ctx.rng(&format!("inj-{kind:?}"));
-        let vals = val::values(kind, usize::MAX, n_random, &mut rng);
+        let vals = match explicit {
+            Some(e) => e.iter().filter(|v| v.kind() == kind).cloned().collect(),
+            None => val::values(kind, usize::MAX, n_random, &mut rng),
+        };
         let mut seen: HashMap<Vec<[u8; 32]>, String> = HashMap::new();
         let sig = format!("C08/{}/offcircuit", kind.type_name());
         let mut ok = 0u64;
@@ -927,11 +945,15 @@ fn main() {
             }
         } else if let Some(c) = w.get("case").and_then(|c| c.get("op")).and_then(|o| o.as_str()).zip(w.get("case").and_then(|c| c.get("input")).and_then(|i| i.as_str()).and_then(Val::parse)) {
             jobs.push(Job::Free { kind: c.1.kind(), path: Path::Constrain, values: vec![c.1], attack_first: 1 });
+        } else if let Some(z) = w.get("zkir").and_then(zkir::parse) {
+            jobs.push(Job::Zkir { vals: z });
         } else if let Some(i) = w.get("verifier_case").and_then(|i| i.as_u64()).or(w.get("case").and_then(|c| c.get("verifier_case")).and_then(|i| i.as_u64())) {
             jobs.push(Job::Verifier { idx: i as usize });
         } else {
-            eprintln!("replay file has no re-executable case (off-circuit findings re-run with the same --seed)");
-            jobs.push(Job::Verifier { idx: usize::MAX });
+            if !["value", "value_a"].iter().any(|k| w.get(*k).is_some()) {
+                eprintln!("replay file has no re-executable case");
+                std::process::exit(2);
+            }
         }
     } else {
         // A: free exposure, both paths
@@ -1002,7 +1024,7 @@ fn main() {
             }
         }
         // E: verifier types
-        for i in 0..ctx.tier.pick(2, 10) {
+        for i in 0..ctx.tier.pick(5, 20) {
             jobs.push(Job::Verifier { idx: i });
         }
         jobs.push(Job::Verifier { idx: usize::MAX }); // AssignedVk
@@ -1018,7 +1040,8 @@ fn main() {
                 }
             }
             for r in 0..ctx.tier.pick(2, 12) {
-                let n = [0usize, 1, 3, 32, 33][r % 5];
+                // Bytes(0) loads are a known panic of the IR (C18: load-bytes-0) and have an empty encoding
+                let n = [1usize, 3, 32, 33, 2][r % 5];
                 jobs.push(Job::Zkir { vals: vec![ZVal::Bytes((0..n).map(|i| if r % 2 == 0 { [0u8, 255, 1, 128][i % 4] } else { rng.gen() }).collect())] });
             }
             for _ in 0..ctx.tier.pick(2, 20) {
@@ -1029,7 +1052,8 @@ fn main() {
                             ZVal::Bytes((0..rng.gen_range(1..6)).map(|_| rng.gen()).collect())
                         } else {
                             let k = *zk.choose(&mut rng).unwrap();
-                            one(k, &mut rng, rng.gen_bool(0.3))
+                            let b = rng.gen_bool(0.3);
+                            one(k, &mut rng, b)
                         }
                     })
                     .collect();
@@ -1115,8 +1139,20 @@ fn main() {
     outs.sort_by_key(|o| o.idx);
 
     // ---- off-circuit injectivity (cheap, sequential) ----
-    let inj = injectivity(&all_kinds(true), ctx.tier.pick(300, 4000), &ctx, &mut rep);
-    let inj_v = injectivity_verifier(ctx.tier.pick(10, 60), &ctx, &mut rep);
+    let (inj, inj_v) = match &replay {
+        None => (
+            injectivity(&all_kinds(true), ctx.tier.pick(300, 4000), &ctx, &mut rep, None),
+            injectivity_verifier(ctx.tier.pick(10, 60), &ctx, &mut rep),
+        ),
+        Some(w) => {
+            // off-circuit findings carry the value(s) themselves
+            let vals: Vec<Val> = ["value", "value_a", "value_b"].iter().filter_map(|k| w.get(*k).and_then(|v| v.as_str()).and_then(Val::parse)).collect();
+            let kinds: BTreeSet<Kind> = vals.iter().map(|v| v.kind()).collect();
+            let inj = if vals.is_empty() { json!({}) } else { injectivity(&kinds.into_iter().collect::<Vec<_>>(), 0, &ctx, &mut rep, Some(&vals)) };
+            let inj_v = if w.get("verifier_case").is_some() { injectivity_verifier(w["verifier_case"].as_u64().unwrap_or(0) as usize + 1, &ctx, &mut rep) } else { json!({}) };
+            (inj, inj_v)
+        }
+    };
 
     // ---- merge ----
     let mut matrix: BTreeMap<String, (OpStats, ExpStats, RealStats, u64)> = BTreeMap::new();
